@@ -254,6 +254,20 @@ func (serv *ExchangeServer[H]) handleRangeRequest(
 			return nil, header.ErrNotFound
 		}
 
+		if to-1 <= head.Height() {
+			// the end of the requested range lies below the store's tail (pruned),
+			// there is nothing to serve and no need to walk the chain down from head
+			span.SetStatus(codes.Error, header.ErrNotFound.Error())
+			log.Debugw("server: requested headers are pruned",
+				"from", from,
+				"to", to,
+				"currentHead",
+				head.Height(),
+			)
+			serv.metrics.rangeServed(ctx, time.Since(startTime), to-from, true)
+			return nil, header.ErrNotFound
+		}
+
 		log.Debugw("server: serving partial range",
 			"prevMaxHeight", to,
 			"newMaxHeight", head.Height()+1,
